@@ -10,7 +10,7 @@
    (Cuboid = mesh = tetrahedra, Cylinder = sum of segments, Polyline -> Circle), rotated cuboid partitions. *)
 From Coq Require Import ZArith Reals List Bool.
 From MV Require Import Lib.Rigid Lib.OctZ Gen.GenCuboid Gen.GenCylMask Model.ReprModel Model.ReprExec Proofs.ReprProofs Proofs.ReprExecProofs
-  Proofs.ReprCuboid Proofs.ReprUnique Proofs.ReprFlip.
+  Proofs.ReprCuboid Proofs.ReprUnique Proofs.ReprFlip Proofs.ReprAngles.
 Import ListNotations.
 
 (* ---- Sphere (outside) = Dipole with moment M*V = (J/mu0) * pi d^3/6 : all four fields, every observer with
@@ -75,6 +75,36 @@ Theorem C13_full_segment_BHJ :
     @vmap2 RNum Rplus (@vmuls RNum (full_cylinder_spec cyl1 FH x) mu0) (full_cylinder_spec cyl1 FJ x).
 Proof. exact full_segment_BHJ_R. Qed.
 Print Assumptions C13_full_segment_BHJ.
+
+(* ---- section angles beyond +-360 degrees (/repo 526c29b): the prologue of BHJM_cylinder_segment reduces the angles by whole
+        turns; for every valid section (integers degrees) the reduced angles lie in [-360, 360], keep the span and differ
+        by whole turns (the same body); sections in range are untouched; two descriptions of one body that leave the
+        range on the same side are reduced to the SAME angles; the full-angle dispatch ignores whole turns *)
+Theorem C13_segment_angles_reduced_in_range :
+  forall phi1 phi2 : Z, (phi1 < phi2)%Z -> (phi2 - phi1 <= 360)%Z ->
+    let '(q1, q2) := seg_reduce phi1 phi2 in
+    (-360 <= q1 /\ q2 <= 360 /\ q2 - q1 = phi2 - phi1 /\ exists k, q1 = phi1 - 360 * k /\ q2 = phi2 - 360 * k)%Z.
+Proof. exact seg_reduce_in_range. Qed.
+Print Assumptions C13_segment_angles_reduced_in_range.
+
+Theorem C13_segment_angles_in_range_untouched :
+  forall phi1 phi2 : Z, (-360 <= phi1)%Z -> (phi2 <= 360)%Z -> seg_reduce phi1 phi2 = (phi1, phi2).
+Proof. exact seg_reduce_identity_in_range. Qed.
+Print Assumptions C13_segment_angles_in_range_untouched.
+
+Theorem C13_segment_angles_whole_turns_equivalent :
+  forall phi1 phi2 k : Z, (phi1 < phi2)%Z -> (phi2 - phi1 <= 360)%Z ->
+    ((360 < phi2 -> 360 < phi2 + 360 * k -> seg_reduce (phi1 + 360 * k) (phi2 + 360 * k) = seg_reduce phi1 phi2) /\
+     (phi2 <= 360 -> phi2 + 360 * k <= 360 -> phi1 < -360 -> phi1 + 360 * k < -360 ->
+        seg_reduce (phi1 + 360 * k) (phi2 + 360 * k) = seg_reduce phi1 phi2))%Z.
+Proof. intros phi1 phi2 k H1 H2. split; [apply seg_reduce_shift_same|apply seg_reduce_shift_same_below]; assumption. Qed.
+Print Assumptions C13_segment_angles_whole_turns_equivalent.
+
+Theorem C13_full_angle_dispatch_ignores_whole_turns :
+  forall (o p : @vec ZNum) (r1 r2 h phi1 phi2 k : Z),
+    @mask_segment ZNum (o, p, (r1, r2, h, phi1 + 360 * k, phi2 + 360 * k)%Z) = @mask_segment ZNum (o, p, (r1, r2, h, phi1, phi2)).
+Proof. exact mask_segment_shift. Qed.
+Print Assumptions C13_full_angle_dispatch_ignores_whole_turns.
 
 (* ---- from_mesh / from_triangles: vertices[faces] = mesh, one face per input triangle, all indices in range;
         for every vertex type with a decidable equality and every mesh *)
